@@ -412,8 +412,26 @@ var commonAssumptions = []string{
 	"strings are an uninterpreted sort with a length; contents of formatted messages are not modelled",
 }
 
-var propAssumptions = map[string][]string{}
-var propExplanation = map[string]string{}
+var propAssumptions = map[string][]string{
+	"C11": {
+		"the package-level ECDSA contexts p256Instance / secp256k1Instance hold the curves elliptic.P256() / btcec.S256() with the group orders of NIST P-256 / secp256k1 (global clauses: checked to be written by the package initialiser only, their values are assumed)",
+		"representation invariant of ECDSA key objects (non-nil context, curve of the Go key = curve of the context, non-nil coordinates / scalar) is a precondition of Sign / Verify: the constructors that establish it are under contract for C12 / C05 where claimed, otherwise assumed",
+		"crypto/ecdsa.Sign / Verify, math/big and crypto/elliptic are assumed contracts (contracts/trusted/ecdsa.spec); the big-endian value of a byte string is unchanged by left zero-padding (assumed arithmetic fact)",
+	},
+	"C02": {
+		"Fp12_multi_pairing computes the left fold of gtMul over gtPair of its operands (assumed contract of the BLST glue function)",
+		"iteration over a Go map that the loop does not modify visits every key exactly once (count and sum of value lengths of the visited keys never exceed the map's, and equal them at the end)",
+	},
+	"C04": {
+		"E1_add / E2_add / Fr_add / E2_neg / E2_to_affine are BLST primitives (uninterpreted functions); group laws are not assumed, so nothing about order independence is proved",
+	},
+}
+var propExplanation = map[string]string{
+	"C02": "contract-based deductive verification of VerifyBLSSignatureOneMessage / ManyMessages (go/ssa) and bls_verifyPerDistinctMessage / bls_verifyPerDistinctKey (clang AST): validation, flattening loops, grouped pairing product",
+	"C04": "contract-based deductive verification of the aggregation functions against spec-level folds (sums) of their inputs",
+	"C07": "contract-based deductive verification of the DKG handlers: per-participant key-consistency invariants preserved by every handler for every order of arrival",
+	"C11": "contract-based deductive verification of the ECDSA glue (Sign, Verify, signature format check) over assumed contracts of crypto/ecdsa and math/big",
+}
 
 
 
